@@ -14,7 +14,8 @@ ASSUMPTIONS = ["the per-variable DimArray operation is the oracle, as the proper
 FLOORS = {"op=take_scalar": (50, 50), "op=mean": (50, 50), "op=take_axis": (50, 50), "op=sort_axis": (50, 50), "op=reindex_axis": (50, 50),
           "op=interp_axis": (20, 20), "op=add_ds": (20, 20), "op=stack_ds": (20, 20), "op=concatenate_ds": (20, 20), "has-unaffected": (500, 500),
           "has-0d": (300, 300), "var-dims-reordered": (300, 300), "by-position": (500, 500), "op=construct_misaligned": (20, 20), "op=add_ds_misaligned": (20, 20), "op=concatenate_ds_align": (10, 10),
-          "op=take_scalar_keepdims": (50, 50), "op=reindex_right": (50, 50), "op=take_axis_wrap": (50, 50), "op=reindex_left": (50, 50), "op=concatenate_ds_mismatch": (10, 10), "rejects": (5, 5)}
+          "op=take_scalar_keepdims": (50, 50), "op=reindex_right": (50, 50), "op=take_axis_wrap": (50, 50), "op=reindex_left": (50, 50), "op=concatenate_ds_mismatch": (10, 10), "rejects": (5, 5),
+          "op=to_array": (20, 20), "op=to_array_keys": (20, 20), "op=to_array_roundtrip": (20, 20)}
 
 LABELS = {"x": [4, 2, 6], "y": [6.0, 2.0], "z": ["k2", "k6"]}      # x shuffled, y decreasing, z increasing (str)
 
@@ -195,6 +196,8 @@ def replay(scn):
             return dict(violations=[], calls=0)      # align(strict=True) wants every dataset dimension in every variable
         if o == "construct_misaligned":
             return _replay_construct(scn)
+        if o.startswith("to_array"):
+            return _replay_to_array(scn)
         ds = _mk_ds(i["vars"])
         ds2 = _mk_ds(i["vars"], offset=50)
         before = {k: A.snapshot(ds[k]) for k in ds.keys()}
@@ -261,6 +264,84 @@ def replay(scn):
             viol.append(dict(what=what, sig=signature(scn, kind), variant="-"))
     finally:
         np.seterr(**old)
+    return dict(violations=viol, calls=calls)
+
+
+def _replay_to_array(scn):
+    """Dataset.to_array: the slice at every key is that variable broadcast by name onto the Dataset's axes"""
+    import itertools
+    i = scn["in"]
+    exp = scn["out"]
+    o = i["op"]
+    ds = _mk_ds(i["vars"])
+    before = {k: A.snapshot(ds[k]) for k in ds.keys()}
+    bdims = tuple(ds.dims)
+    keys = list(ds.keys())
+    want_keys = keys if o != "to_array_keys" else [keys[-1], keys[0]][:max(1, len(keys))]
+    what = kind = None
+    calls = 1
+    try:
+        if o == "to_array_default":
+            arr = ds.to_array()
+        elif o == "to_array_keys":
+            arr = ds.to_array(axis="k", keys=want_keys)
+        else:
+            arr = ds.to_array(axis="k", keys=list(keys))
+    except Exception as e:  # noqa
+        return dict(violations=[dict(what="raised %s: %s" % (type(e).__name__, str(e)[:200]), sig="dataset_op/%s/raised:%s" % (o, type(e).__name__), variant="-", observation=True)], calls=1)
+    kname = "unnamed" if o == "to_array_default" else "k"
+    if {k: A.snapshot(ds[k]) for k in ds.keys()} != before or tuple(ds.dims) != bdims:
+        what, kind = "the operand Dataset was modified", "operand-modified"
+    if what is None and not isinstance(arr, A.DimArray):
+        what, kind = "result is %s" % type(arr).__name__, "not-a-dimarray"
+    if what is None and list(arr.dims) != [kname] + list(bdims):
+        what, kind = "dims: expected %s got %s" % ([kname] + list(bdims), list(arr.dims)), "dims"
+    if what is None and list(arr.dims) != (exp["dims"] if o != "to_array_roundtrip" else ["k"] + exp["dims"]):
+        what, kind = "dims: specification %s got %s" % (exp["dims"], list(arr.dims)), "dims"
+    if what is None and arr.axes[0].values.tolist() != want_keys:
+        what, kind = "labels of the key axis: expected %s got %s" % (want_keys, arr.axes[0].values.tolist()), "keys"
+    if what is None:
+        for d in bdims:
+            if arr.axes[d].values.tolist() != ds.axes[d].values.tolist():
+                what, kind = "labels of %s: expected %s got %s" % (d, ds.axes[d].values.tolist(), arr.axes[d].values.tolist()), "labels"
+    if what is None:
+        ranges = [range(len(ds.axes[d])) for d in bdims]
+        for n, k in enumerate(want_keys):
+            v = ds[k]
+            for c in itertools.product(*ranges):
+                got = arr.values[(n,) + c]
+                own = tuple(c[bdims.index(d)] for d in v.dims)
+                src = v.values[own]
+                if not (got == src or (got != got and src != src)):
+                    what, kind = "slice %s at %s: expected %r (variable %s at its own coordinate %s) got %r" % (k, c, src, k, own, got), "values"
+                    break
+            if what:
+                break
+    if what is None and o == "to_array_roundtrip":
+        calls += 1
+        try:
+            back = arr.to_dataset(axis="k")
+            if list(back.keys()) != keys:
+                what, kind = "round trip keys: expected %s got %s" % (keys, list(back.keys())), "roundtrip-keys"
+            else:
+                for n, k in enumerate(keys):
+                    w = _same(back[k], arr.take(k, axis="k"))
+                    if w:
+                        what, kind = "round trip: variable %s differs from the slice of the array: %s" % (k, w), "roundtrip-values"
+                        break
+                    if tuple(back[k].dims) != bdims:
+                        what, kind = "round trip: variable %s has dims %s, expected %s" % (k, back[k].dims, bdims), "roundtrip-dims"
+                        break
+            if what is None:
+                for k in back.keys():
+                    v = dict.__getitem__(back, k)
+                    for j, name in enumerate(v.dims):
+                        if v.axes[j] is not back.axes[name]:
+                            what, kind = "round trip: variable %s does not share the Dataset's axis %s" % (k, name), "sharing"
+        except Exception as e:  # noqa
+            what, kind = "round trip raised %s: %s" % (type(e).__name__, str(e)[:200]), "roundtrip-raised"
+    # to_array / to_dataset are not among the operations the statement of C14 lists: a disagreement is an observation
+    viol = [dict(what=what, sig="dataset_op/%s/%s" % (o, kind), variant="-", observation=True)] if what else []
     return dict(violations=viol, calls=calls)
 
 
